@@ -1,7 +1,11 @@
 import TbbVerif.Core.Proto
+import TbbVerif.Model.C08
 
 open TbbVerif
 
-def drivers : List (String × Proto.Driver) := []
+def drivers : List (String × Proto.Driver) := [
+  ("c08rw", C08.driverRw),
+  ("c08spin", C08.driverSpin)
+]
 
 def main (args : List String) : IO UInt32 := Proto.mainOf drivers args
